@@ -30,15 +30,17 @@ Place(pl, s) ==
 
 \* function k of the chain: k = depth is the one that fails; others call the next one (directly or through a lambda)
 FName(k) == "level" \o ToString(k)
-CallNext(k, hop) ==
-  IF hop = "lambda" /\ k = 1
-  THEN <<Let("go", Lam(<<"v">>, <<"int">>, Bin("+", Call(FName(k + 1), <<V("v")>>), I(1)))), Let("r", Call("go", <<Bin("+", V("n"), I(1))>>))>>
-  ELSE <<Let("r", Bin("+", Call(FName(k + 1), <<Bin("+", V("n"), I(1))>>), I(1)))>>
+\* the call to the next level: directly, or through a lambda created in this function
+UsesLambda(k, hop) == hop = "lambda" /\ k = 1
+CallExpr(k, hop) == IF UsesLambda(k, hop) THEN Call("go", <<Bin("+", V("n"), I(1))>>)
+                    ELSE Bin("+", Call(FName(k + 1), <<Bin("+", V("n"), I(1))>>), I(1))
 FnK(k, depth, kd, pl, hop) ==
   Fn(FName(k), <<Par("n", "int")>>, "int",
      <<PrintS(Bin("..", S("enter " \o FName(k) \o " "), V("n")))>> \o
      (IF k = depth THEN Place(pl, FailS(kd)) \o <<ExprS(V("n"))>>
-      ELSE Place(IF k % 2 = 1 THEN pl ELSE "plain", CallNext(k, hop)[1]) \o Tail(CallNext(k, hop)) \o <<ExprS(V("r"))>>))
+      ELSE <<Var("r", I(0))>> \o
+           (IF UsesLambda(k, hop) THEN <<Let("go", Lam(<<"v">>, <<"int">>, Bin("+", Call(FName(k + 1), <<V("v")>>), I(1))))>> ELSE <<>>) \o
+           Place(IF k % 2 = 1 THEN pl ELSE "plain", Assign(V("r"), "=", CallExpr(k, hop))) \o <<ExprS(V("r"))>>))
 Nothing == Fn("nothing", <<Par("n", "int")>>, "option<int>", <<If(Bin(">", V("n"), I(1000)), <<[k |-> "ret", e |-> Some(V("n"))]>>, <<>>), ExprS(None)>>)
 
 \* which file holds function k
